@@ -412,6 +412,65 @@ def run_polymix(c):
     return ck.result()
 
 
+# ------------------------------------------------------------------------------------------- mixed representatives in one collection
+@st.composite
+def mixrep_case(draw, tier="quick"):
+    d = draw(st.sampled_from([2, 3]))
+    k = draw(st.integers(2, 5))
+    return {"d": d, "rows": [[draw(C.ints(6)) for _ in range(d)] for _ in range(k)], "w": [draw(st.sampled_from([1, 1, 2, -1, 4, 0])) for _ in range(k)],
+            "q": [draw(C.ints(5)) for _ in range(d)], "two_axes": draw(st.booleans())}
+
+
+def run_mixrep(c):
+    """a PointCollection whose elements are given by different kinds of representatives - last coordinate exactly 1, another
+    non-zero factor (2, -1, 4), or 0 (a point at infinity): point arithmetic and normalisation at every position == the same
+    operation on the single point"""
+    d, rows, ws = c["d"], c["rows"], c["w"]
+    if len(rows) != len(ws) or any(len(r) != d for r in rows):
+        raise Skip("malformed")
+    H = []
+    for r, w in zip(rows, ws):
+        if w == 0:
+            if not any(r):
+                raise Skip("zero vector")
+            H.append(np.array(list(r) + [0], float))
+        else:
+            H.append(np.array(list(r) + [1], float) * w)
+    H = np.array(H)
+    k = len(H)
+    shape = (k,)
+    coll = PointCollection(H)
+    if c["two_axes"] and k == 4:
+        shape = (2, 2)
+        coll = PointCollection(H.reshape((2, 2, d + 1)))
+    q = Point(*[float(x) for x in c["q"]])
+    ops = [("x+q", lambda x: x + q), ("x-q", lambda x: x - q), ("q-x", lambda x: q - x), ("x*2", lambda x: x * 2), ("x/2", lambda x: x / 2), ("-x", lambda x: -x), ("3*x", lambda x: 3 * x),
+           ("normalized_array", lambda x: x.normalized_array), ("isinf", lambda x: x.isinf), ("dist(x,q)", lambda x: G.dist(x, q))]
+    ck = Checker()
+    for name, fn in ops:
+        R, f = call(f"mixed-representatives:{name}:collection", fn, coll)
+        if f:
+            ck.add(f)
+            continue
+        Ra = np.asarray(R.array if isinstance(R, G.base.Tensor) else R)
+        if not ck.check(Ra.shape[: len(shape)] == shape, f"mixed-representatives:{name}:shape", Ra.shape):
+            continue
+        Ra = Ra.reshape((k,) + Ra.shape[len(shape):])
+        for i in range(k):
+            S_, f = call(f"mixed-representatives:{name}:single", fn, Point(H[i]))
+            if f:
+                ck.add(f)
+                break
+            Sa = np.asarray(S_.array if isinstance(S_, G.base.Tensor) else S_)
+            if Sa.ndim == 1 and name != "normalized_array":
+                ok = Sa.shape == Ra[i].shape and bool(C.peq_all(Ra[i], Sa, 1, 1e-9))
+            else:
+                ok = Sa.shape == Ra[i].shape and bool(np.allclose(Ra[i], Sa, rtol=1e-9, atol=1e-12, equal_nan=True))
+            if not ck.check(ok, f"mixed-representatives:{name}:position-vs-single", (i, ws, Ra[i].tolist(), Sa.tolist())):
+                break
+    return ck.result()
+
+
 LAWS = [
     Law("collection_vs_single", lambda tier: case(tier), run, nontrivial, labels, {"quick": 3500, "thorough": 80000},
         "collection result at every position == single-object result there, with broadcasting", shard=250, mandatory=("one-axis", "several-axes", "one-axis+broadcast")),
@@ -422,6 +481,9 @@ LAWS = [
         "is_collinear/is_concurrent (4 arguments), is_coplanar (5 arguments): collection positions with different truth values vs the single-object calls", shard=350),
     Law("polygon3d_mixed_coplanarity", polymix_strategy, run_polymix, lambda c: len({x != 0 for x in c["lift"]}) > 1, lambda c: ["mixed" if len({x != 0 for x in c["lift"]}) > 1 else "uniform"],
         {"quick": 250, "thorough": 5000}, "3D polygon vs point collections mixing in-plane and off-plane points: collection answers == single answers", shard=125, mandatory=("mixed",)),
+    Law("point_collection_mixed_representatives", lambda tier: mixrep_case(tier), run_mixrep, lambda c: len({min(abs(w), 2) for w in c["w"]}) > 1,
+        lambda c: ["mixed" if len({min(abs(w), 2) for w in c["w"]}) > 1 else "uniform"] + (["with-infinite-point"] if 0 in c["w"] else []), {"quick": 500, "thorough": 8000},
+        "PointCollection mixing unit, scaled and infinite representatives: arithmetic / normalisation / dist per position == single point", shard=250, mandatory=("mixed", "with-infinite-point")),
     Law("indexing", lambda tier: idx_case(tier), run_idx, lambda c: True, lambda c: [f"{c['kind']}{c['d']}", c["how"], "2-axes" if len(c["shape"]) > 1 else "1-axis"],
         {"quick": 1500, "thorough": 25000}, "coll[i], coll[i,j], iteration yield instances of the element class with attributes intact", shard=300),
 ]
